@@ -18,6 +18,9 @@ package main
 import (
 	"context"
 	"errors"
+	"fmt"
+	"os"
+	"runtime"
 	"sort"
 	"strings"
 	"sync"
@@ -32,9 +35,11 @@ import (
 	"github.com/openfga/openfga/pkg/storage"
 )
 
-// Fault runs use the server's default breadth limit: with a limit of 1 or 2 a failing
-// ReadUsersetTuples makes the unchanged engine hang until the request deadline (observed, an
-// error class for the property; it only costs time here).
+// Fault runs use the server's default breadth limit.  A failing object-side read (ReadUsersetTuples
+// / Read) consumed through iterator.ToChannel by Weight2.execute / Recursive.execute makes the
+// unchanged engine spin until the request deadline (finding v2_read_error_hang): ToChannel keeps
+// polling the failed iterator and sending its error, the consumer keeps `continue`-ing.  The
+// driver records how often the failed iterator was polled again (the signature of that loop).
 const faultLimit = 10
 
 var errInjected = errors.New("verif: injected datastore failure in the middle of a result stream")
@@ -46,6 +51,7 @@ type faultDS struct {
 	k      int            // tuples delivered before the failure
 	counts map[string]int // key -> tuples consumed (counting mode)
 	fired  bool
+	polls  int // Next / Head calls that returned the injected error (a failed stream stays failed)
 }
 
 func (d *faultDS) wrap(key string, it storage.TupleIterator, err error) (storage.TupleIterator, error) {
@@ -112,6 +118,9 @@ func (i *faultIter) fail() bool {
 	if i.d.target != "" && i.d.target == i.key && i.seen >= i.d.k {
 		i.d.mu.Lock()
 		i.d.fired = true
+		if i.d.polls < 1000000 {
+			i.d.polls++
+		}
 		i.d.mu.Unlock()
 		return true
 	}
@@ -276,19 +285,35 @@ func runFaults(ctx context.Context, w *rec.Writer, in *scen.Intern, env *scen.En
 			ds := &faultDS{RelationshipTupleReader: env.DS, counts: map[string]int{}, target: p.Key, k: k}
 			q := v2With(ds, mg, faultLimit, strategies[p.Strategy])
 			cctx, cancel := context.WithTimeout(ctx, time.Second)
+			done := make(chan struct{})
+			if f := os.Getenv("C03_HANGDUMP"); f != "" {
+				go func(p faultPlan, k int) { // watchdog: goroutine dump WHILE the engine is blocked
+					select {
+					case <-done:
+					case <-time.After(700 * time.Millisecond):
+						buf := make([]byte, 1<<22)
+						n := runtime.Stack(buf, true)
+						_ = os.WriteFile(f, append([]byte(fmt.Sprintf("fault %+v k=%d\n", p, k)), buf[:n]...), 0o644)
+					}
+				}(p, k)
+			}
 			res, err := q.Execute(cctx, params(env, s, p.Obj, p.Rel, p.User))
+			close(done)
 			cancel()
 			c := classify(res, err)
 			if c == cTimeout {
 				w.Stat("fault_run_hung_until_deadline", 1)
-				break
 			}
 			fired := 0
 			ds.mu.Lock()
 			if ds.fired {
 				fired = 1
 			}
+			polls := ds.polls
 			ds.mu.Unlock()
+			if polls > 1000 {
+				polls = 1000
+			}
 			w.Stat("fault_runs", 1)
 			w.Stat("fault_runs_"+[]string{"rswu", "rut", "read"}[opCode(p.Key)], 1)
 			if fired == 1 {
@@ -297,7 +322,10 @@ func runFaults(ctx context.Context, w *rec.Writer, in *scen.Intern, env *scen.En
 			}
 			a, b := in.Obj(p.Obj)
 			out = append(out, rec.L(a, b, rec.I(in.R(p.Rel)), in.Subject(p.User), rec.I(p.Strategy), rec.I(opCode(p.Key)),
-				rec.I(k), rec.I(fired), rec.I(c), rec.I(o.V2[0]), rec.I(o.V2[1]), rec.I(o.V2[2])))
+				rec.I(k), rec.I(fired), rec.I(c), rec.I(o.V2[0]), rec.I(o.V2[1]), rec.I(o.V2[2]), rec.I(polls)))
+			if c == cTimeout {
+				break // every further position of this read hangs the same way: one second each
+			}
 		}
 	}
 	return out
